@@ -116,6 +116,7 @@ def parseOp (w : List String) : Option Op :=
   | ["read_string", s] => do some (.read (.string (← unhex s)))
   | ["read_stream", s] => do some (.read (.stream (← unhex s)))
   | ["read_chunked", _, s] => do some (.read (.stream (← unhex s)))
+  | ["read_eintr", _, _, s] => do some (.read (.stream (← unhex s)))   -- an interrupted and resumed delivery is a delivery
   | ["read_file", p] => do some (.read (.file (← unhex p)))
   | ["get", k, p] => do some (.get (← parseKind k) (← parsePath p))
   | ["get_elem_val", k, p, i] => do some (.getElemVal (← parseKind k) (← parsePath p) (← i.toInt?))
@@ -383,6 +384,12 @@ def c03Line (st : State) (w : List String) : Option (State × String) :=
   | ["leakcheck3"] => some (st, "leakcheck 0")     -- the model has no heap
   | ["cov"] => some (st, "cov 0")                  -- never compared
   | ["read_stream_fail", _, d] =>
+    match unhex d with
+    | some d =>
+      let r := readFailingStream st.world st.cfg d readFuel
+      some (st.withCfg r.cfg, s!"0 {showLog r.dtorLog}")
+    | none => some (st, "bad-op")
+  | ["read_stream_eagain", d] =>
     match unhex d with
     | some d =>
       let r := readFailingStream st.world st.cfg d readFuel
